@@ -377,7 +377,8 @@ def rule_xport(m):
                       'the base-class insertion instead of %s::%s, so repeated pairs / special values are not handled as when ' \
                       'adding the edges one at a time (and derived totals are not maintained by the insertion)' % (
                           delegated['base'].replace('BaseGraph::', ''), short(cls), adder)
-            elif len(loops) != 1 or len(adds) != 1 or len(resz) != 1:
+            elif len(loops) != 1 or len(adds) != 1 or (len(resz) != 1 and not (
+                    len(resz) == 0 and len(loops) == 1 and len(adds) == 1 and _pair_growth_call(m, f, tt, loops[0], adds[0]) is not None)):
                 why = 'expected one loop over the container, one resize and one insertion through %s' % adder
             elif _elem_type_mismatch(f, ct, loops[0]['loopvar']):
                 why = 'the loop variable over the container has type `%s`, which is not the element type of the container: every ' \
@@ -413,6 +414,14 @@ def rule_xport(m):
                     why = 'the insertion is not on the graph under construction'
                 elif any(x == ('bool', True) for x in a[len(want):]):
                     why = 'the constructor inserts with force=true: the result differs from adding the edges one at a time'
+                elif not resz:
+                    # growth through a helper  h(a, b) { L = max(a, b); if (L >= getSize()) resize(L + 1); }  called with the
+                    # two endpoints of the element before the insertion
+                    gh = _pair_growth_call(m, f, tt, loops[0], adds[0])
+                    if gh is not True:
+                        why = gh
+                    elif f.region(adds[0]['i']) - f.region(loops[0]['loopvarstmt']):
+                        why = 'the insertion is conditional'
                 else:
                     # growth: maxIndex = max(c0, c1); if (maxIndex >= getSize()) resize(maxIndex + 1), before the insertion
                     ra = strip_cast(tt.t(resz[0]['args'][0]))
@@ -452,6 +461,58 @@ def rule_xport(m):
                 ok(f, schema='graph(0); for t in seq: m = max(t0,t1); if (m >= size) resize(m+1); %s(t0, t1[, t2])' % adder)
     res.require_sites(30, 'transport functions')
     return res
+
+
+def _is_pair_growth_helper(m, g):
+    """g(a, b) on the graph under construction:  L = max(a, b); if (L >= getSize()) resize(L + 1);  and nothing else"""
+    if g is None or g.is_lambda or len(g.params) != 2 or g.record not in GRAPH_CLASSES:
+        return False
+    gt = Terms(g)
+    calls = [n for n in g.nodes if n['k'] in ('CXXMemberCallExpr', 'CallExpr', 'CXXOperatorCallExpr')]
+    rs = [n for n in calls if n['k'] == 'CXXMemberCallExpr' and 'callee' in n and g.unit.decl(n['callee'])['name'] == 'resize']
+    if len(rs) != 1 or any(n['k'] in ('ForStmt', 'WhileStmt', 'DoStmt', 'CXXForRangeStmt') for n in g.nodes):
+        return False
+    from .rules_pair import Ctx as _GCtx
+    gc = _GCtx(m, g)
+    ra = strip_cast(gc.unconst(gt.t(rs[0]['args'][0])))
+    if not (ra[0] == 'bin' and ra[1] == '+' and strip_cast(ra[3]) == ('int', 1)):
+        return False
+    L = strip_cast(ra[2])
+    a, b = ('var', g.params[0]), ('var', g.params[1])
+    if not (L[0] == 'call' and L[1] == 'std::max' and {strip_cast(x) for x in L[2]} == {a, b}):
+        return False
+    deps = g.region(rs[0]['i'])
+    if len(deps) != 1:
+        return False
+    dep = list(deps)[0]
+    t = gc.unconst(gt.t(g.branch_atom(dep[0])))
+    if not (t[0] == 'bin' and t[1] == '>=' and strip_cast(gc.unconst(t[2])) == L and is_size_term(m, g, t[3], gt) and dep[1] == 0):
+        return False
+    other = [n for n in calls if n is not rs[0] and 'callee' in n and g.unit.decl(n['callee'])['name'] not in ('max', 'getSize')]
+    return not other
+
+
+def _pair_growth_call(m, f, tt, loop, add):
+    """None: no growth helper call in the loop; True: conforming; str: deviation"""
+    body = set(f.descendants(loop['body']))
+    hits = []
+    for n in f.nodes:
+        if n['i'] in body and n['k'] == 'CXXMemberCallExpr' and 'callee' in n and tt.t(n.get('obj', -1)) == ('this',):
+            g = f.unit.function_for_decl(n['callee'])
+            if _is_pair_growth_helper(m, g):
+                hits.append(n)
+    if len(hits) != 1:
+        return None
+    h = hits[0]
+    ha = [tt.t(x) for x in h['args']]
+    aa = [tt.t(x) for x in add['args'][:2]]
+    if set(ha) != set(aa):
+        return 'the graph is grown for other values than the two endpoints that are inserted'
+    if f.region(h['i']) - f.region(loop['loopvarstmt']):
+        return 'the growth of the graph is conditional'
+    if not f.can_reach_forward(h['i'], add['i']):
+        return 'the graph is grown after the insertion of the same element'
+    return True
 
 
 def _elem_type_mismatch(f, container_ctype, loopvar):
